@@ -524,8 +524,70 @@ func (e *Engine) funcsForProp(prop string) []string {
 			out = append(out, name)
 		}
 	}
+	// functions under contract that touch a struct type whose type contract (guarded-by, invariants,
+	// immutables...) carries a clause of the property: the discipline obligations arise inside them
+	types_ := map[string]bool{}
+	for tn, tc := range e.cs.Types {
+		if hasProp(tc.Tags, prop) {
+			types_[tn] = true
+			continue
+		}
+		for _, c := range tc.Inv {
+			if hasProp(c.Tags, prop) {
+				types_[tn] = true
+			}
+		}
+	}
+	if len(types_) > 0 {
+		have := map[string]bool{}
+		for _, n := range out {
+			have[n] = true
+		}
+		for name, fc := range e.cs.Funcs {
+			if fc.Extern || have[name] || fc.Flags["inline"] != nil || fc.Flags["spawn_inline"] != nil || fc.Flags["trusted"] != nil {
+				continue
+			}
+			fn := e.funcs[name]
+			if fn == nil {
+				continue
+			}
+			if e.touchesTypes(fn, types_, 0) {
+				out = append(out, name)
+			}
+		}
+	}
 	sort.Strings(out)
 	return out
+}
+
+// touchesTypes: does fn (or a function literal inside it) access a field of one of the struct types?
+func (e *Engine) touchesTypes(fn *ssa.Function, ts map[string]bool, depth int) bool {
+	for _, b := range fn.Blocks {
+		for _, ins := range b.Instrs {
+			switch x := ins.(type) {
+			case *ssa.FieldAddr:
+				if ts[structKey(x.X.Type())] {
+					return true
+				}
+			case *ssa.Field:
+				if ts[structKey(x.X.Type())] {
+					return true
+				}
+			case *ssa.UnOp:
+				if g, ok := x.X.(*ssa.Global); ok && ts["$globals"] && g.Pkg != nil && e.modPkgSet[g.Pkg.Pkg] {
+					return true
+				}
+			}
+		}
+	}
+	if depth < 2 {
+		for _, af := range fn.AnonFuncs {
+			if e.cs.Funcs[e.funcName(af)] == nil && e.touchesTypes(af, ts, depth+1) {
+				return true
+			}
+		}
+	}
+	return false
 }
 
 func (fr *FuncResult) symCache() *lineSyms {
